@@ -52,9 +52,14 @@ func c19Opts() *gtfs.ParseRealtimeOptions {
 	return &gtfs.ParseRealtimeOptions{Extension: nycttrips.Extension(nycttrips.ExtensionOpts{FilterStaleUnassignedTrips: true, PreserveMTrainPlatformsInBushwick: false})}
 }
 
-// c19GoodFeed renders a feed with a unique header timestamp and unique trip data.
+// c19GoodFeed renders a good feed. Header timestamps come from a set of three
+// values per directory, so good files that are adjacent in name order often
+// carry the same timestamp (and sometimes the same trips) as their neighbour.
 func c19GoodFeed(r *core.Rand, k int) []byte {
-	t := uint64(1700000000 + 100*k)
+	t := uint64(1700000000 + 100*(k%2))
+	if r.Chance(1, 4) {
+		t = 1700000000
+	}
 	var trips []hgen.TripState
 	n := 1 + r.Intn(3)
 	for i := 0; i < n; i++ {
@@ -330,7 +335,8 @@ var straceOpen = regexp.MustCompile(`openat\(AT_FDCWD, "((?:[^"\\]|\\.)*)", [^)]
 
 // c19CLI runs the real CLI over the directory, optionally under strace with read faults injected.
 func c19CLI(c *core.Ctx, dir string, names []string, byName map[string]string, withStrace bool, detail func() any) {
-	cli := filepath.Join(os.Getenv("VERIF_DIR"), ".bin", "gtfs-cli")
+	exe, _ := os.Executable()
+	cli := filepath.Join(filepath.Dir(exe), "gtfs-cli")
 	if _, err := os.Stat(cli); err != nil {
 		c.Note("harness_error", "CLI binary missing: "+cli)
 		c.Observe("harness_errors", 1)
